@@ -7,7 +7,8 @@
                            if dst_net not in curr_path:
                              if dst_net.op == '@':
                                for read_net in mem.readport_nets:
-                                 dfs(read_net.dests[0], curr_path + [dst_net, read_net])
+                                 if read_net not in curr_path:
+                                   dfs(read_net.dests[0], curr_path + [dst_net, read_net])
                              else: dfs(dst_net.dests[0], curr_path + [dst_net])
      paths = [p for p in paths if len(p) > 0]
      if src is not dst:   (* <-- the suffix filter: `suffix_filter` below *)
@@ -63,7 +64,8 @@ Fixpoint dfs (fuel : nat) (w : wid) (cur : list net) : list (list net) :=
          if net_in n cur then []
          else match nop n with
               | OpMemWr m =>
-                flat_map (fun rn => dfs f (ndest rn) (cur ++ [n; rn])) (readports m)
+                flat_map (fun rn => if net_in rn cur then []
+                                    else dfs f (ndest rn) (cur ++ [n; rn])) (readports m)
               | _ => dfs f (ndest n) (cur ++ [n])
               end) (readers w)
   end.
